@@ -7,36 +7,58 @@ ID = "C05"
 AREA = M.AREA
 LEAN_PROPS = "Litep2pVerif.Props.C05"
 THEOREMS = ["no_dup_outcome", "dial_ledger", "quiescent_dialable", "addr_total", "dial_address_parses_for_tcp",
-            "dial_address_peers_agree"]
+            "dial_address_peers_agree", "protocol_dial_ledger", "protocol_dial_joins",
+            "protocol_notified_despite_full_channel", "protocol_dial_address_error_silent_witness"]
 MANIFEST = {
     "text": "Lean 4 theorems about an executable operational model of the connection manager with a ghost ledger of accepted "
             "dial attempts: no_dup_outcome, dial_ledger (outcome + inflight = 1 for every attempt in every reachable state), "
             "quiescent_dialable, addr_total (every multiaddress shape), for all histories in which the transport keeps the "
             "Transport-trait contract (stated as an executable predicate) and all limit configurations. Findings (d) and (f) "
-            "were repaired by two fix: commits and the theorems are proved for the repaired code. Tie: seeded differential run "
-            "of the real TransportManager (scripted Transport) against the model, plus an outcome-ledger oracle.",
+            "were repaired by two fix: commits and the theorems are proved for the repaired code. Protocol level "
+            "(Model/Manager/Proto.lean): bounded event channel per installed protocol, the command channel, the DialPeer / "
+            "DialAddress arms of next() (incl. the DialFailure{peer, []} report of fix e94cf63), every site where protocols are "
+            "told a dial failure (try_send, then a blocking send that suspends next()) or a connection; protocol_dial_ledger "
+            "(every accepted request is queued or processed once; a processed one started an attempt whose single report "
+            "reaches every protocol, or got exactly one failure report, or joined; delivery = taken out ++ still buffered), "
+            "protocol_dial_joins, protocol_notified_despite_full_channel (a full channel delays, never loses), for every "
+            "number/order of protocols, every capacity and every interleaving; protocol_dial_address_error_silent_witness "
+            "keeps the open defect (queued DialAddress failure is only logged; known finding). Tie: seeded differential run "
+            "of the real TransportManager (scripted Transport, real protocol contexts with small channels, requests through "
+            "the real TransportManagerHandle, connections reported by the real ProtocolSet) against the model, plus an "
+            "outcome-ledger oracle per attempt and per protocol.",
     "note": "Trusted: Lean kernel; axioms propext/Quot.sound/Classical.choice; the model and its sampled tie; the environment "
             "contract `allowed` (events only for outstanding obligations, accept succeeds, dial/open/negotiate return Ok — "
             "proved for dial via dial_address_parses_for_tcp, read off tcp/mod.rs for open/negotiate); TcpTransport's own "
-            "cancel/poll_next bookkeeping is outside the model.",
+            "cancel/poll_next bookkeeping is outside the model; an accepted connection reports itself to the protocols only "
+            "when every protocol channel has room (the blocking broadcast of ProtocolSet::report_connection_established is "
+            "C09's subject), the command channel (256) never fills up.",
     "technique": "Lean 4 proof (ghost-ledger invariant by induction over all contract-abiding histories) + model/implementation correspondence check",
     "design_ref": "DESIGN.md §7 C05, §8 (d)-(g)",
 }
 RULE = ("closed-loop seeded histories (limit configs none/0/1/2/(3,2)/mixed; 2-3 peers x 3 addresses; dial, dial_address, "
         "add_known_address, open/negotiate success and failure, simultaneous inbound connections, limit rejections, accept "
         "results, closures; <= 25 events; 5-15 % of cases with contract-breaking events) plus a stream of adversarial "
-        "multiaddress shapes for dial_address, run on the real TransportManager and on the Lean model; non-trivial = at least "
+        "multiaddress shapes for dial_address; in half of the histories 1-3 protocols with event channels of capacity 1-3 "
+        "are installed, dial by peer id / address through the manager handle (limit configs under which queued dials fail), "
+        "their channels are filled before and drained after outcomes are delivered (manager blocked inside next()), "
+        "application calls are tried while it is blocked; run on the real TransportManager and on the Lean model; non-trivial = at least "
         "one dial attempt started and concluded; distinct = distinct (ops, observations) transcripts by SHA-256")
 TRUSTED_BASE = ["Lean 4.33 kernel", "axioms: propext, Quot.sound, Classical.choice only",
                 "hand-written model Model/Manager/{PeerState,Limits,Dial}.lean tied to manager/{peer_state,limits,mod}.rs by this correspondence run",
                 "the environment contract `allowed` of Model/Manager/Dial.lean (what a Transport may report)",
-                "adapter /repo/src/verif/c05.rs (scripted Transport, one next() poll to quiescence per op), harness, verif.py, checks/c05.py, checks/mgr_common.py",
+                "adapter /repo/src/verif/c05.rs (scripted Transport, next() polled to quiescence per op; a next() future that is "
+                "pending inside an arm is kept and resumed, recognised by a second poll that does not reach the transport), "
+                "harness, verif.py, checks/c05.py, checks/mgr_common.py",
+                "tokio mpsc semantics (bounded channel, a blocked send() is served before later try_send()s)",
                 "TcpTransport internals (cancel/poll_next bookkeeping), tokio::select! fairness"]
 ASSUMPTIONS = ["default feature set: TCP is the only SupportedTransport",
                "the transport keeps the Transport-trait contract: one terminal event per dial/open/negotiate unless cancelled, "
                "reported peer = the /p2p it parsed, accept succeeds for a connection it has just reported",
                "addresses in a peer's address store have the TCP shape and end in that peer's /p2p (add_known_address filter, C10)",
-               "fewer than 64 addresses per peer in a case"]
+               "fewer than 64 addresses per peer in a case",
+               "protocol level: the application does not call the manager and the environment delivers nothing while next() "
+               "is blocked on a full protocol channel; a connection's accept future runs when every protocol channel has room; "
+               "fewer than 256 queued commands"]
 KEEP_PREFIX = 1
 
 
